@@ -371,12 +371,13 @@ def report(prop, tier, seed, cases, results, replays, t_start, verbose):
                 b = _base(o['label'])
                 und.add(b)
                 und.update(aliases.get(b, ()))
-        if not und:
+        anyfail = bool(r.get('error'))        # the symbolic run did not finish (engine error / budget): any concrete failure decides
+        if not und and not anyfail:
             continue
         for cr in (results.get('_cosim', {}).get(c.name) or []):
             if cr.get('error') or cr.get('outside'):
                 continue
-            hit = [x for x in cr['failed'] if _base(x[0]) in und or (_base(x[0]).startswith('no_exception') and any(u.startswith('no_exception') for u in und))]
+            hit = [x for x in cr['failed'] if anyfail or _base(x[0]) in und or (_base(x[0]).startswith('no_exception') and any(u.startswith('no_exception') for u in und))]
             if hit:
                 key = '%s:%s' % (c.name, _base(hit[0][0]))
                 path = os.path.join(VERIF, 'replay', prop, (key.replace('/', '_').replace(':', '__'))[:150] + '.cosim.json')
